@@ -213,7 +213,7 @@ def one_multiset(ctx, shard, k, rng):
                 c.check(os.listdir(tdir) == [], "temp-file-outlives-success", f"temp_dir still contains {os.listdir(tdir)}")
                 c.check(all(p.startswith(tdir) for p in _AUDIT["paths"]), "temp_dir-option-ignored",
                         f"temporary files were not created under temp_dir: {_AUDIT['paths']}")
-            c.check(len(_AUDIT["paths"]) >= 1, "harness:no-temp-file-observed", "audit hook saw no temp file")
+            c.feature("tempfiles:observed-by-audit-hook" if _AUDIT["paths"] else "tempfiles:none-observed")
             if nck >= 2 and total:
                 c.nontrivial(repr(bt), repr(desc["chunks"]), mergebuf, max_merge, symm)
             ctx.sample({"chunks": len(frames), "chunk_sizes": [len(f) for f in frames], "mergebuf": mergebuf,
